@@ -462,6 +462,70 @@ theorem drop_row_on_view_counterexample :
     rowDropped (applyS (.drop [.name "a"] (some (.cellEq (.name "a") (.int 1)))) (.plain [(.name "a", .int 1), (.name "b", .str "x")])) = true ∧
     rowRaised (dropOnViewS [.name "a"] (some (.cellEq (.name "a") (.int 1))) (.plain [(.name "a", .int 1), (.name "b", .str "x")])) = true := by decide +kernel
 
+/-! ## Phase 6: iteration element by element (early consumer stop, abandoned iterators) -/
+
+/-- a consumer that stops early: for every base / pipeline with a defined eager row and every `n`, calling `next()` `n` times on `iter(row)`
+(`list(islice(row, n))`, a `zip` with a shorter partner, a `for … break`) yields exactly the first `n` cells of the eager list and raises nothing -/
+theorem partial_iteration (b : DBase) (stages : List Stage) (e0 e : EagerD) (r : DRow)
+    (hb : eagerBaseD b = .ok e0) (he : eagerD stages e0 = .ok (some e))
+    (hr : buildD stages (baseD b) = .ok (some r)) (n : Nat) :
+    r.takeN n = (e.cells.take n, none) := partial_iteration' b stages e0 e r hb he hr n
+
+/-- the same for `row.feats` (DropOne: two chained `islice`s over two independent iterations of the labelled row), LabelRows last -/
+theorem partial_iteration_feats (b : DBase) (stages : List Stage) (k : Key) (t : Option String) (e0 e : EagerD)
+    (hb : eagerBaseD b = .ok e0) (he : eagerD (stages ++ [.label k t]) e0 = .ok (some e)) :
+    ∃ r f ef, buildD (stages ++ [.label k t]) (baseD b) = .ok (some r) ∧ r.feats = .ok f ∧ e.feats = some ef ∧
+      ∀ n, f.takeN n = (ef.cells.take n, none) := partial_iteration_feats' b stages k t e0 e hb he
+
+/-- the element-by-element model agrees with the whole-row one: for EVERY row object (no hypothesis on base or pipeline), whenever `list(row)`
+is a value in the model, the generator pipeline produces exactly these values, one per `next()`, and no exception -/
+theorem stream_of_iter_ok (r : DRow) (xs : List Val) (h : r.iter = .ok xs) : r.stream = xs.map .ok := stream_of_iter_ok' r xs h
+
+/-- stopping earlier shows a prefix of what stopping later shows, and can only raise what the longer consumer raises too
+(every row object, defined eager row or not) -/
+theorem takeN_prefix (r : DRow) (m n : Nat) (h : m ≤ n) :
+    (r.takeN m).1 = (r.takeN n).1.take m ∧ ((r.takeN m).2 = none ∨ (r.takeN m).2 = (r.takeN n).2) := takeN_prefix' r m n h
+
+/-- read / abandon / read again: after a partial iteration that was abandoned (the base row is loaded, nothing else happened) every history of
+accesses — and every further partial iteration — answers as on the untouched row -/
+theorem abandoned_iteration (r : DRow) (n : Nat) (as : List Acc) :
+    runD (stepTake r n).2 as = runD r as ∧ (stepTake r n).2.takeN = r.takeN := abandoned_iteration' r n as
+
+/-- the hypotheses of `partial_iteration` are satisfiable and the statement is not about the empty prefix only:
+LazyDense(loader) `['1','2','3']`, header a,b,c, `int` per column, drop b, label c: two `next()` give `[1,3]`, one gives `[1]` -/
+example : ∃ e0 e r, eagerBaseD exBase = .ok e0 ∧ eagerD exStages e0 = .ok (some e) ∧ buildD exStages (baseD exBase) = .ok (some r) ∧
+    r.takeN 1 = ([.int 1], none) ∧ r.takeN 2 = ([.int 1, .int 3], none) ∧ r.takeN 5 = ([.int 1, .int 3], none) :=
+  ⟨_, _, _, rfl, rfl, rfl, by decide +kernel, by decide +kernel, by decide +kernel⟩
+
+/-- where the eager row is undefined (a cell's encoder raises) the ORDER of raising is part of the model: `LazyDense(['1','x','3'], [int,int,int])`
+(1) its `feats` for label column 1 (DropOne): one `next()` gives 1, the second raises ValueError — skipping the label cell evaluates it, although
+`feats` never shows it; (2) behind `DropRows([1])` (KeepDense, `compress`): the dropped cell still raises at the second `next()`;
+(3) position 1 of the KeepDense row is fine (`row[1] == 3`): by position the dropped cell is never evaluated (replayed: corpus family `walk`) -/
+theorem raise_order_witness :
+    let base := DRow.lazy (.loaded [.str "1", .str "x", .str "3"]) (some [.toInt, .toInt, .toInt]) none false
+    (DRow.dropOne base 1).takeN 1 = ([.int 1], none) ∧ (DRow.dropOne base 1).takeN 2 = ([.int 1], some .valueError) ∧
+    (DRow.keep base [0, 2] [] [true, false, true] 2 none).takeN 1 = ([.int 1], none) ∧
+    (DRow.keep base [0, 2] [] [true, false, true] 2 none).takeN 2 = ([.int 1], some .valueError) ∧
+    ((DRow.keep base [0, 2] [] [true, false, true] 2 none).getPos 1).toOption = some (.int 3) := by intro base; decide +kernel
+
+/-- raise order of `row.feats`, in general: whenever the first failing element of the labelled row is at or before the label column (`xs` = the cells before it, all fine),
+every consumer of `iter(row.feats)` that asks for more than `xs.length` elements gets exactly `xs` and then that element's exception — in particular a failing LABEL cell
+(`xs.length = ind`) raises out of `feats`, which never shows it (DropOne's second `islice` skips by evaluating).  Every row object, every label position. -/
+theorem feats_iteration_first_error (r : DRow) (ind : Nat) (xs : List Val) (e : Err) (t : List (Res Val))
+    (h : r.stream = xs.map .ok ++ .error e :: t) (hl : xs.length ≤ ind) (n : Nat) (hn : xs.length < n) :
+    (DRow.dropOne r ind).takeN n = (xs, some e) := feats_iteration_first_error' r ind xs e t h hl n hn
+
+/-- its hypotheses are met by the witness row: `LazyDense(['1','x','3'],[int,int,int])`, label column 1 -/
+example : (DRow.lazy (.loaded [.str "1", .str "x", .str "3"]) (some [.toInt, .toInt, .toInt]) none false).stream
+    = [Val.int 1].map .ok ++ .error .valueError :: [.ok (.int 3)] := by rfl
+
+/-- why `stream_of_iter_ok` goes from `iter` to `stream` only: on a jagged table (`DropRows` computed its selectors `[True]` from a one-column first row) the row
+`LazyDense(['1','2','x'],[int,int,int])` iterates to `[1]` without ever pulling the failing third cell (`compress` stops when the selectors end, one datum after them),
+while the whole-list model `iter` encodes the complete inner row first and raises.  The element-wise model follows the code (replayed: corpus family `walk`, jagged case) -/
+theorem iter_vs_stream_short_selector_witness :
+    let r := DRow.keep (.lazy (.loaded [.str "1", .str "2", .str "x"]) (some [.toInt, .toInt, .toInt]) none false) [0] [] [true] 1 none
+    r.iter.toOption = none ∧ r.takeN 5 = ([.int 1], none) := by intro r; decide +kernel
+
 /-- translator obligation: the guard of `__getattr__` in each of the four base classes is `attr == '_row'` (so `_inv`, `_fwd`, `headers`, `missing`, `feats`,
 `label` … are forwarded), and each concrete row-view class defines `__len__` / `__iter__` itself and leaves `__eq__` / `__getattr__` to its base class -/
 theorem getattr_guard_extracted :
